@@ -464,7 +464,26 @@ def run_witness(u, scratch, failed_obligations, tier):
                 return {"_error": f"anchor lost: the file the witness is appended to does not exist: {to}"}
             marker = "// ---- appended by /verif: " + tname + " " + wf
             if marker not in open(tgt).read():
-                open(tgt, "a").write("\n" + marker + "\n" + open(os.path.join(u["_dir"], wf)).read())
+                wtext = open(os.path.join(u["_dir"], wf)).read()
+                # `splice`: a piece of /repo's own text (e.g. an expression inside a quote! template that cannot be called) is cut out
+                # mechanically — everything between the single occurrence of `after` and the next occurrence of `before`, `//` comment
+                # lines dropped, nothing else — and pasted over a placeholder of the witness, so the witness runs the text that is there
+                for sp in w.get("splice", []):
+                    src_path = os.path.join(copy, sp["from"])
+                    if not os.path.exists(src_path):
+                        return {"_error": f"anchor lost: splice source does not exist: {sp['from']}"}
+                    src = open(src_path).read()
+                    if src.count(sp["after"]) != 1:
+                        return {"_error": f"anchor lost: splice start `{sp['after']}` occurs {src.count(sp['after'])} times in {sp['from']} (need exactly 1)"}
+                    a = src.index(sp["after"]) + len(sp["after"])
+                    b = src.find(sp["before"], a)
+                    if b < 0:
+                        return {"_error": f"anchor lost: splice end `{sp['before']}` not found after the start in {sp['from']}"}
+                    piece = "\n".join(l for l in src[a:b].split("\n") if not l.strip().startswith("//"))
+                    if "#" in piece or sp["placeholder"] not in wtext:
+                        return {"_error": f"unsupported: spliced text of {sp['from']} contains a template interpolation, or the witness has no placeholder {sp['placeholder']}"}
+                    wtext = wtext.replace(sp["placeholder"], piece)
+                open(tgt, "a").write("\n" + marker + "\n" + wtext)
         cmd = ["cargo", "test", "--offline", "--lib"] + w.get("cargo_args", []) + ["verif_witness", "--", "--test-threads", "8", "--show-output"]
     else:
         tdir = os.path.join(crate_dir, "tests")
